@@ -135,6 +135,7 @@ type c10SeedRec struct {
 	CreatedAgo int            `json:"created_ago"`
 	Pod        string         `json:"pod"` // absent | alive | exited | terminating
 	UIDMatch   bool           `json:"uid_match"`
+	Node       int            `json:"node,omitempty"` // node of the record (label, instance) and of its pod
 	Allocs     []c10SeedAlloc `json:"allocs"`
 }
 
@@ -1236,6 +1237,25 @@ func (w *c10World) endStep() {
 		default:
 			w.c.Fatalf("C10(4): step %d (%s): interface %s (created in step %d, status %s) exists in the cloud without a record and no delete of it was failed by injection (delete attempted: %v)",
 				w.step, w.actor, e.ID, e.CreatedStep, e.Status, w.cloud.deleteTried[e.ID])
+		}
+	}
+	// evidence: a record whose attach half succeeded (some interface attached, no instance id in the status)
+	for i := range list.Items {
+		r := &list.Items[i]
+		if r.Status.InstanceID != "" || len(r.Spec.Allocations) < 2 {
+			continue
+		}
+		att := 0
+		for _, a := range r.Spec.Allocations {
+			if e, ok := w.cloud.get(a.ENI.ID); ok && e.Instance != "" {
+				att++
+			}
+		}
+		if att > 0 && att < len(r.Spec.Allocations) {
+			w.c.Label("half-attached-no-instance-id")
+			if p := w.getPodByName(r.Name); p == nil {
+				w.c.Label("half-attached-no-instance-id:pod-gone")
+			}
 		}
 	}
 	if !w.closed {
